@@ -13,12 +13,19 @@ C = dict(
         dict(module="PipeDrop_MC", cfg="PipeDrop_MC_2p_fixed.cfg", workers=8),
         dict(module="PipeDrop_MC", cfg="PipeDrop_MC_3_fixed.cfg", workers=8),
         dict(module="PipeDrop_MC", cfg="PipeDrop_MC_2_synth.cfg", workers=8),
+        dict(module="PipeDrop_MC", cfg="PipeDrop_MC_2r_fixed.cfg", workers=8),
+        dict(module="PipeDrop_MC", cfg="PipeDrop_MC_2pr_fixed.cfg", workers=8),
     ],
     plan_sources=[
         dict(name="d2", module="PipeDrop_MC", cfg="PipeDrop_Plan2.cfg", cap={"quick": 70, "thorough": 3000}, params=P(CAT_D2), workers=8),
         dict(name="d2p", module="PipeDrop_MC", cfg="PipeDrop_Plan2p.cfg", cap={"quick": 50, "thorough": 350}, params=P(CAT_D2), workers=8),
         dict(name="d2n", module="PipeDrop_MC", cfg="PipeDrop_Plan2n.cfg", cap={"quick": 60, "thorough": 644}, params=P(CAT_D2), workers=8),
         dict(name="d3", module="PipeDrop_MC", cfg="PipeDrop_Plan3.cfg", cap={"quick": 40, "thorough": 3000}, params=P(CAT_D3), workers=8),
+        # pause/resume on the same manager (stop, start again, partitions added again) and a second start after the drop was delivered
+        dict(name="d2r", module="PipeDrop_MC", cfg="PipeDrop_Plan2r.cfg", simulate={"quick": 60}, depth=60, params=P(CAT_D2, seek_ts=7), tiers=["quick"]),
+        dict(name="d2pr", module="PipeDrop_MC", cfg="PipeDrop_Plan2pr.cfg", simulate={"quick": 60}, depth=60, params=P(CAT_D2), tiers=["quick"]),
+        dict(name="d2r", module="PipeDrop_MC", cfg="PipeDrop_Plan2r.cfg", cap={"thorough": 3000}, params=P(CAT_D2, seek_ts=7), workers=8, tiers=["thorough"]),
+        dict(name="d2pr", module="PipeDrop_MC", cfg="PipeDrop_Plan2pr.cfg", cap={"thorough": 3000}, params=P(CAT_D2), workers=8, tiers=["thorough"]),
         dict(name="syn", module="PipeDrop_MC", cfg="PipeDrop_Plan2synth.cfg", cap={"quick": 50, "thorough": 500}, params=P(CAT_D2_DROPPED, seek_ts=5), workers=8),
     ],
     directed="plans/C04.jsonl",
@@ -37,4 +44,12 @@ C = dict(
 )
 
 def run(tier, replay=None):
+    if not replay:
+        from lib import vlib
+        # negative controls: a stop that keeps stale partition entries, a delivered drop that is not remembered
+        for cfg, inv in (("PipeDrop_MC_2r_stale.cfg", "Delivered"), ("PipeDrop_MC_2r_forgot.cfg", "C04")):
+            r = vlib.run_tlc("PipeDrop_MC", cfg, workers=4, timeout=300)
+            if inv not in r.violated:
+                raise vlib.Inconclusive("%s no longer violates %s: the restart part of the model is vacuous" % (cfg, inv))
+            vlib.log("[tlc] PipeDrop_MC/%s: violates %s as expected" % (cfg, inv))
     return flow.standard_flow(C, tier, replay)
